@@ -19,8 +19,9 @@ def arg_str(a):
 class GraphGen:
     """typed random DAGs of constructor events (see `rule`)."""
 
-    def __init__(self, rng, allow_bad=True, allow_invalid=True, max_events=40):
+    def __init__(self, rng, allow_bad=True, allow_invalid=True, max_events=40, bad_rate=0.004):
         self.rng, self.allow_bad, self.allow_invalid, self.max_events = rng, allow_bad, allow_invalid, max_events
+        self.bad_rate = bad_rate
 
     def const(self):
         r = self.rng
@@ -83,7 +84,7 @@ class GraphGen:
                         want = 'ar'
                     elif cls == 'LinExp' and _k == 0:
                         want = ctor
-                    if self.allow_bad and r.random() < 0.004:
+                    if self.allow_bad and r.random() < self.bad_rate:
                         ins.append(['bad', r.choice(['none', 'nan', 'str'])]); surely_valid = False
                     elif want and known[want] and r.random() < 0.93:
                         v = r.choice(known[want]); ins.append(['r', v[0], v[1]])
@@ -310,7 +311,7 @@ class Check(common.Check):
         return None
 
     def oracle(self, case, io):
-        if io.get('sem'):
+        if io.get('sem') and not io['sem'].get('signature', '').startswith('c02:'):
             return io['sem']
         # the verified validator (Lean, theorem validate_sound) rejects the REAL emitted definition
         if io.get('validator_real', '').startswith('INVALID') and io['canon'].startswith('OK') and not io.get('skip'):
